@@ -303,6 +303,39 @@ def _base_cprop(name):
     return functools.cached_property(f)
 
 
+GQ_PROBES = ["gq", "gq_pub", "_gq", "_gq_priv", "_{name}__gq", "__gq", "__gq__", "gq__", "_"]
+
+
+def _base_getattr(tag):
+    """a COOPERATIVE __getattr__ for a base class: answers every name containing 'gq' (public, underscore-led,
+    name-mangled, dunder-like alike), hands every other name to the next __getattr__ of the MRO (a slotted attrs
+    base's generated one, say) and raises AttributeError when there is none.  Returns (function, holder); holder[0]
+    must be set to the finished class."""
+    holder = [None]
+
+    def __getattr__(self, item):
+        if "gq" in item:
+            return f"{tag}:{item}"
+        try:
+            nxt = super(holder[0], self).__getattr__
+        except AttributeError:
+            raise AttributeError(item) from None
+        return nxt(item)
+    return __getattr__, holder
+
+
+def gq_probe(inst, name):
+    """canonical answers of `inst` to the fallback probe names"""
+    out = []
+    for pn in GQ_PROBES:
+        pn = pn.replace("{name}", name.lstrip("_"))
+        try:
+            out.append([pn, "v:" + str(getattr(inst, pn))])
+        except BaseException as e:  # noqa: BLE001
+            out.append([pn, "exc:" + common.exc_kind(e)])
+    return out
+
+
 def _isub_hook():
     def __attrs_init_subclass__(cls):
         ISUB.append(cls)
@@ -330,6 +363,9 @@ def build_bases(hs):
             cp = _base_cprop(n)
             ns[n] = cp
         ns["bm"] = lambda self: "bm"
+        gholder = None
+        if bs.get("getattr"):
+            ns["__getattr__"], gholder = _base_getattr(f"B{i}")
         if bs.get("isc"):
             def __init_subclass__(cls, **kw):
                 cls.isc_mark = ISC_MARK          # runs for the original class AND for the slotted replacement
@@ -359,6 +395,8 @@ def build_bases(hs):
             cls = type(name, (base,), ns)
         else:
             raise ValueError(k)
+        if gholder is not None:
+            gholder[0] = cls
         chain.append(cls)
         specs[cls] = bs
         base = cls
@@ -370,7 +408,12 @@ def build_bases(hs):
             ns["__slots__"] = ()
         if ms.get("isub"):
             ns["__attrs_init_subclass__"] = _isub_hook()
+        gholder = None
+        if ms.get("getattr"):
+            ns["__getattr__"], gholder = _base_getattr("Mx")
         mixin = type("Mx", (object,), ns)
+        if gholder is not None:
+            gholder[0] = mixin
         specs[mixin] = ms
     return chain, specs, mixin
 
@@ -473,6 +516,13 @@ def _role_of(key, spec):
     return None
 
 
+DOCS = {"text": "the docstring", "empty": "", "zero": 0, "false": False, "none": None}
+
+
+def doc_value(hs):
+    return DOCS[hs.get("doc_kind") or "text"]
+
+
 class Built:
     pass
 
@@ -502,7 +552,8 @@ def build(hs, decorate=True):
         src = [f"class {name}({', '.join('_b%d' % i for i in range(len(bases)))}"
                + (", metaclass=_M" if _meta(hs) is not type else "") + "):"]
         if hs.get("doc"):
-            src.append("    'the docstring'")
+            dv = doc_value(hs)
+            src.append(f"    {dv!r}" if isinstance(dv, str) else f"    __doc__ = {dv!r}")
         if hs.get("body_slots") is not None:
             src.append(f"    __slots__ = {tuple(hs['body_slots'])!r}")
         if hs.get("api") != "these":
@@ -568,7 +619,7 @@ def build(hs, decorate=True):
         if hs.get("qualname"):
             ns["__qualname__"] = hs["qualname"]
         if hs.get("doc"):
-            ns["__doc__"] = "the docstring"
+            ns["__doc__"] = doc_value(hs)
         if hs.get("body_slots") is not None:
             ns["__slots__"] = tuple(hs["body_slots"])
         if hs.get("api") != "these":
@@ -1091,6 +1142,18 @@ def observe(hs):
                 continue
             if _static(new, k) is not _static(twin, k):
                 cb.append("twin:" + k)
+        # a failed lookup goes to the inherited __getattr__ (if any) on both builds alike, whatever the name looks like
+        if inst is not None:
+            try:
+                tinst = twin()
+            except BaseException:  # noqa: BLE001
+                tinst = None
+            if tinst is not None:
+                got_t = dict(map(tuple, gq_probe(tinst, hs.get("name", "C"))))
+                for pn, got in gq_probe(inst, hs.get("name", "C")):
+                    if got != got_t[pn]:
+                        obs["lookupDiff"].append("fallback:" + pn)
+            del LOG[:]
     obs["callbackDiff"] = sorted(set(cb))
     # not compared: frozen leaves (every assignment raises; the frozen *dict* twin may hit K3), a body-level
     # __slots__ (the dict twin has no __dict__), body keys shadowing inherited fields (dropped by the slotted build)
